@@ -250,6 +250,7 @@ func runShake(rng *hcommon.RNG) {
 		}
 	}
 	checkShakes(cases)
+	checkShortShakes(shortShakeCases())
 }
 
 // ---- client side -------------------------------------------------------------------
